@@ -65,7 +65,9 @@ public:
     }
     for (int t = nw; t < nw + nr; t++) {
       int n = g.rng.range(1, g.tier ? 6 : 4);
-      for (int i = 0; i < n; i++) p.threads[t].ops.push_back(Op{OP_READ, 0, 0, 0});
+      // a = 1: the read functor returns a reference to the instance (`-> const Rec&`); read() returns by value
+      // (`auto`), i.e. the copy the caller gets has to be made while the reader is still registered
+      for (int i = 0; i < n; i++) p.threads[t].ops.push_back(Op{OP_READ, g.rng.chance(40) ? 1 : 0, 0, 0});
     }
     g.opt.step_cap = 200000;
   }
@@ -85,8 +87,8 @@ public:
         });
       op_end(1);
     } else {
-      op_begin(OP_READ, 0, 0, 0, OPF_LOCKFREE);
-      Rec v = lr->read([](const Rec& r) { return r; });
+      op_begin(OP_READ, op.a, 0, 0, OPF_LOCKFREE);
+      Rec v = op.a ? Rec(lr->read([](const Rec& r) -> const Rec& { return r; })) : lr->read([](const Rec& r) { return r; });
       if (v.a != v.b || v.b != v.c) xsim::fail("mixed-read", "read observed a partially updated instance: a=%lu b=%lu c=%lu", v.a, v.b, v.c);
       op_end(1, (int64_t)v.a);
     }
